@@ -2,8 +2,10 @@
   C19 — runs are deterministic and printing is a canonical function of the value.
 -/
 import SeedModel.Run
+import SeedProofs.Lemmas.C19Spec
+import SeedProofs.Lemmas.C19Held
 namespace Seed.C19
-open Seed
+open Seed Seed.C10
 
 /-- the only iteration over a hash-ordered collection in the sources is `remaining_keys.iter()` in bind.rs, and it is
     collected into a `BTreeMap` (ordered) before anything observes it — a `decide` fact about the table extracted from
@@ -36,5 +38,188 @@ theorem print_spec (n : Nat) (σ : State) (v : SVal) (s : List Char) (h : render
     callBuiltin n σ .print none [v] = .ok (SVal.plain .null) (σ.print s) := by
   unfold callBuiltin
   simp [assertArgs, h]
+
+/-! ## printing is a function of the unfolding
+
+`C10.Tree` is the inductive unfolding of a value, `C10.Unf σ v t`: "`t` is the unfolding of `v` in the heap of `σ`" (it exists
+exactly when no container is reachable from itself).  `renderTree` (`Lemmas/C19Render.lean`) is the renderer on trees,
+`specPrint σ d t` (`Lemmas/C19Spec.lean`) the direct depth-passing printer of the property text. -/
+
+-- audit: Seed.C19.render_link Seed.C19.render_unfold Seed.C19.render_unfold_held Seed.C19.render_unfold_le Seed.C19.renderTree_cleanB Seed.C19.renderTree_no_lock Seed.C19.renderTree_fnfree Seed.C19.spec_indent Seed.C19.render_eq_spec Seed.C19.render_spec Seed.C19.indent_append Seed.C19.indent_reindent Seed.C19.iterate_indent
+-- audit: Seed.C19.render_held_frame Seed.C19.render_noheld Seed.C19.render_unfold_noheld Seed.C19.Reach.unf Seed.C19.unf_acyclic_list Seed.C19.unf_acyclic_obj Seed.C19.Unf.canon
+
+/-- **C19 (R1+R2).** with enough fuel, and with any larger amount, `render` of an acyclic value is the direct printer
+    applied to its unfolding at depth 0 — whatever the addresses, the sharing and the history of the heap; it is never
+    the failed `try_lock` and never a time-out -/
+theorem print_is_spec {σ : State} {v : Val} {t : Tree} (h : Unf σ v t) :
+    (∃ n, ∀ m, n ≤ m → render m σ [] v = specPrint σ 0 t) ∧ specPrint σ 0 t ≠ .lock ∧ specPrint σ 0 t ≠ .timeout := by
+  refine ⟨render_spec h, ?_⟩
+  rw [← render_eq_spec]
+  exact renderTree_no_lock σ t
+
+/-- at every fuel: a time-out or the direct printer's answer -/
+theorem print_is_spec_le {σ : State} {v : Val} {t : Tree} (h : Unf σ v t) (n : Nat) :
+    render n σ [] v = .timeout ∨ render n σ [] v = specPrint σ 0 t := by
+  rw [← render_eq_spec]; exact render_unfold_le h n
+
+/-- the shape of the direct printer, as in the property text -/
+theorem spec_shapes (σ : State) (d : Nat) :
+    specPrint σ d .null = .ok c!"<null>" ∧
+    specPrint σ d (.bool true) = .ok c!"true" ∧ specPrint σ d (.bool false) = .ok c!"false" ∧
+    (∀ i, specPrint σ d (.int i) = .ok (intToChars i)) ∧
+    (∀ cs, specPrint σ 0 (.str (utf8Encode cs)) = match utf8Decode (utf8Encode cs) with
+      | .ok cs' => .ok cs' | .error e => .err (Gen.Leaf.BuiltinFuncErr (c!"couldn't convert error message to UTF-8: " ++ e.msg))) ∧
+    specPrint σ d (.list .nil) = .ok (c!"[\n" ++ pad d ++ c!"]") ∧
+    specPrint σ d (.obj .nil) = .ok (c!"{\n" ++ pad d ++ c!"}") ∧
+    (∀ t r s rest, specPrint σ (d + 1) t = .ok s → specItems σ d r = .ok rest →
+      specItems σ d (.cons t r) = .ok (pad (d + 1) ++ s ++ c!",\n" ++ rest)) ∧
+    (∀ k t r s rest, specPrint σ (d + 1) t = .ok s → specProps σ d r = .ok rest →
+      specProps σ d (.cons k t r) = .ok (pad (d + 1) ++ c!"\"" ++ reindent d k ++ c!"\": " ++ s ++ c!",\n" ++ rest)) := by
+  refine ⟨rfl, rfl, rfl, fun _ => rfl, ?_, rfl, rfl, ?_, ?_⟩
+  · intro cs
+    simp only [specPrint, reindent_zero]
+    cases utf8Decode (utf8Encode cs) <;> rfl
+  · intro t r s rest h1 h2; simp only [specItems, h1, h2, RenderRes.bind]
+  · intro k t r s rest h1 h2; simp only [specProps, h1, h2, RenderRes.bind]
+
+/-- a list in a list holding a two-line string: each enclosing container re-indents the inner line once -/
+example :
+    specPrint State.init 0 (.list (.cons (.list (.cons (.str [97, 10, 98]) (.cons (.int (-7)) .nil))) (.cons .null .nil))) =
+      .ok c!"[\n    [\n        a\n        b,\n        -7,\n    ],\n    <null>,\n]" := by
+  rfl
+
+/-- the same through the heap: cell 0 is `["a\nb"]`, cell 1 is the object `{"k": cell 0, "l": cell 0}` (shared) -/
+example :
+    render 6 ⟨#[.list [SVal.plain (.str [97, 10, 98])], .obj [(c!"k", SVal.plain (.list 0)), (c!"l", SVal.plain (.list 0))]], []⟩
+        [] (.obj 1) =
+      .ok c!"{\n    \"k\": [\n        a\n        b,\n    ],\n    \"l\": [\n        a\n        b,\n    ],\n}" := by
+  rfl
+
+/-- a container that contains itself has no unfolding, and `render` answers `.lock` (a crash of `print`) -/
+example : render 6 ⟨#[.list [SVal.plain (.list 0)]], []⟩ [] (.list 0) = .lock := by rfl
+
+/-! ## values with the same unfolding print identically -/
+
+/-- **C19 (R3).** two values with the same function-free unfolding — in the same or in different heaps, at any
+    addresses, with any sharing, however they were built — render identically (a text or the UTF-8 error) -/
+theorem eq_print_same {σ σ' : State} {v w : Val} {t : Tree} (hv : Unf σ v t) (hw : Unf σ' w t) (hf : t.FnFree) :
+    ∃ n, ∀ m, n ≤ m → render m σ [] v = render m σ' [] w ∧ Clean (render m σ [] v) := by
+  obtain ⟨n1, h1⟩ := render_unfold hv
+  obtain ⟨n2, h2⟩ := render_unfold hw
+  refine ⟨max n1 n2, fun m hm => ?_⟩
+  rw [h1 m (by omega), h2 m (by omega)]
+  exact ⟨(renderTree_fnfree σ σ' t hf).2, (renderTree_fnfree σ σ' t hf).1⟩
+
+/-- in one heap functions may occur too -/
+theorem eq_print_same_state {σ : State} {v w : Val} {t : Tree} (hv : Unf σ v t) (hw : Unf σ w t) :
+    ∃ n, ∀ m, n ≤ m → render m σ [] v = render m σ [] w := by
+  obtain ⟨n1, h1⟩ := render_unfold hv
+  obtain ⟨n2, h2⟩ := render_unfold hw
+  exact ⟨max n1 n2, fun m hm => by rw [h1 m (by omega), h2 m (by omega)]⟩
+
+/-- whatever the two fuels: two answers that are not time-outs are the same answer -/
+theorem eq_print_same_any_fuel {σ σ' : State} {v w : Val} {t : Tree} (hv : Unf σ v t) (hw : Unf σ' w t) (hf : t.FnFree)
+    (n m : Nat) (h1 : render n σ [] v ≠ .timeout) (h2 : render m σ' [] w ≠ .timeout) :
+    render n σ [] v = render m σ' [] w := by
+  rcases render_unfold_le hv n with h | h
+  · exact absurd h h1
+  · rcases render_unfold_le hw m with h' | h'
+    · exact absurd h' h2
+    · rw [h, h', (renderTree_fnfree σ σ' t hf).2]
+
+/-- `print` uses its argument only through `render` -/
+theorem print_depends_on_render (n : Nat) (σ : State) (x y : SVal) (h : render n σ [] x.v = render n σ [] y.v) :
+    callBuiltin n σ .print none [x] = callBuiltin n σ .print none [y] := by
+  unfold callBuiltin
+  simp [assertArgs, h]
+
+/-- **C19 (R3).** values that are `==` print identically: if `a == b` answers `true` on function-free acyclic data
+    (`Canon`: keys of every object in increasing order, as `BTreeMap` keeps them), the two `print` calls do exactly the
+    same thing — the same line appended to the output, or the same error -/
+theorem eq_values_print_same {σ : State} {x y : SVal} {s t : Tree} (k : Nat) (hx : Unf σ x.v s) (hy : Unf σ y.v t)
+    (hf : s.FnFree) (hs : s.Canon) (ht : t.Canon) (he : eqVal k σ x.v y.v = .ok true) :
+    (∃ n, ∀ m, n ≤ m → render m σ [] x.v = render m σ [] y.v ∧
+      callBuiltin m σ .print none [x] = callBuiltin m σ .print none [y]) ∧
+    (∀ n m, render n σ [] x.v ≠ .timeout → render m σ [] y.v ≠ .timeout → render n σ [] x.v = render m σ [] y.v) := by
+  have hst : s = t := by
+    rcases (eq_link σ k).1 x.v y.v s t hx hy hf (Tree.Canon.KO s hs) with h | h
+    · rw [he] at h; cases h
+    · exact eqT_true_eq s t hs ht (by rw [← h, he])
+  subst hst
+  constructor
+  · obtain ⟨n, hn⟩ := eq_print_same_state hx hy
+    exact ⟨n, fun m hm => ⟨hn m hm, print_depends_on_render m σ x y (hn m hm)⟩⟩
+  · exact fun n m => eq_print_same_any_fuel hx hy hf n m
+
+/-- the same with the canonical-form hypotheses discharged from the heap invariant "every object cell is key-sorted" -/
+theorem eq_values_print_same_sorted {σ : State} {x y : SVal} {s t : Tree} (k : Nat) (hσ : HeapSorted σ)
+    (hx : Unf σ x.v s) (hy : Unf σ y.v t) (hf : s.FnFree) (he : eqVal k σ x.v y.v = .ok true) :
+    (∃ n, ∀ m, n ≤ m → render m σ [] x.v = render m σ [] y.v ∧
+      callBuiltin m σ .print none [x] = callBuiltin m σ .print none [y]) ∧
+    (∀ n m, render n σ [] x.v ≠ .timeout → render m σ [] y.v ≠ .timeout → render n σ [] x.v = render m σ [] y.v) :=
+  eq_values_print_same k hx hy hf (Unf.canon hσ s _ hx) (Unf.canon hσ t _ hy) he
+
+/-! ## the lines of an object are in the stored key order -/
+
+/-- element-wise relation between two lists of the same length -/
+inductive Forall2 {α β : Type} (R : α → β → Prop) : List α → List β → Prop
+  | nil : Forall2 R [] []
+  | cons {a : α} {b : β} {as : List α} {bs : List β} : R a b → Forall2 R as bs → Forall2 R (a :: as) (b :: bs)
+
+/-- the line of one property -/
+def propLine (k s : List Char) : List Char := c!"    \"" ++ k ++ c!"\": " ++ indent s ++ c!",\n"
+
+theorem renderProps_lines (σ : State) (held : List Addr) : ∀ (n : Nat) (props : ObjMap) (body : List Char),
+    renderProps n σ held props = .ok body →
+    ∃ rs : List (List Char), Forall2 (fun p s => ∃ m, render m σ held p.2.v = .ok s) props rs ∧
+      body = (List.zipWith (fun p s => propLine p.1 s) props rs).flatten
+  | 0, _, _, h => by simp [renderProps] at h
+  | n + 1, [], body, h => by
+    simp only [renderProps, RenderRes.ok.injEq] at h
+    exact ⟨[], .nil, by simp [← h]⟩
+  | n + 1, (k, x) :: r, body, h => by
+    simp only [renderProps] at h
+    cases h1 : render n σ held x.v with
+    | ok s =>
+      rw [h1] at h
+      cases h2 : renderProps n σ held r with
+      | ok rest =>
+        rw [h2] at h
+        simp only [RenderRes.ok.injEq] at h
+        obtain ⟨rs, hrs, hb⟩ := renderProps_lines σ held n r rest h2
+        refine ⟨s :: rs, .cons ⟨n, h1⟩ hrs, ?_⟩
+        simp [← h, hb, propLine]
+      | err l => rw [h2] at h; cases h
+      | lock => rw [h2] at h; cases h
+      | bad => rw [h2] at h; cases h
+      | timeout => rw [h2] at h; cases h
+    | err l => rw [h1] at h; cases h
+    | lock => rw [h1] at h; cases h
+    | bad => rw [h1] at h; cases h
+    | timeout => rw [h1] at h; cases h
+
+/-- **C19.** what `print` writes for an object: `{`, then one `    "key": value,` line per stored property **in the
+    stored order** — which is ascending key order when the cell is sorted, as every `BTreeMap` is — then `}`; the value
+    texts are the re-indented renderings of the property values -/
+theorem render_keys_ascending {σ : State} {a : Addr} {props : ObjMap} {n : Nat} {out : List Char}
+    (hg : σ.getObj a = some props) (hs : props.Pairwise fun p q => keyLt p.1 q.1 = true)
+    (hr : render n σ [] (.obj a) = .ok out) :
+    ∃ rs : List (List Char), Forall2 (fun p s => ∃ m, render m σ [a] p.2.v = .ok s) props rs ∧
+      out = c!"{\n" ++ (List.zipWith (fun p s => propLine p.1 s) props rs).flatten ++ c!"}" ∧
+      (props.map Prod.fst).Pairwise (fun k k' => keyLt k k' = true) := by
+  cases n with
+  | zero => simp [render] at hr
+  | succ n =>
+    simp only [render, hg, List.contains_nil, Bool.false_eq_true, if_false] at hr
+    cases h : renderProps n σ [a] props with
+    | ok body =>
+      rw [h] at hr
+      simp only [RenderRes.ok.injEq] at hr
+      obtain ⟨rs, hrs, hb⟩ := renderProps_lines σ [a] n props body h
+      exact ⟨rs, hrs, by rw [← hr, hb], List.pairwise_map.mpr hs⟩
+    | err l => rw [h] at hr; simp at hr
+    | lock => rw [h] at hr; simp at hr
+    | bad => rw [h] at hr; simp at hr
+    | timeout => rw [h] at hr; simp at hr
 
 end Seed.C19
